@@ -292,7 +292,11 @@ func (v *Val) Render() string {
 	case TMap:
 		xs := make([]string, len(v.M))
 		for i, e := range v.M {
-			xs[i] = e.K.Render() + ": " + e.V.Render()
+			kr := e.K.Render()
+			if e.K.T.K == TNum && float64(e.K.N) == 0 {
+				kr = "0" // -0 and 0 are the same key
+			}
+			xs[i] = kr + ": " + e.V.Render()
 		}
 		sort.Strings(xs)
 		return "[" + strings.Join(xs, ", ") + ":]"
